@@ -258,6 +258,22 @@ fn mutate(rng: &mut Rng, n: &mut GNode, depth: usize) {
                 1 if !items.is_empty() => { items.pop(); }
                 2 => { *n = sc("scalar-instead"); return; }
                 3 => { *anchor = Some("s".into()); }
+                // shift an element across a nested boundary: the inner surplus equals the outer shortage (or the reverse)
+                5 | 6 if items.len() >= 2 => {
+                    if let Some(i) = (0..items.len() - 1).find(|&i| matches!(items[i], GNode::Seq { .. })) {
+                        if choice == 5 {
+                            let moved = items.remove(i + 1);
+                            if let GNode::Seq { items: inner, .. } = &mut items[i] { inner.push(moved); }
+                        } else if let GNode::Seq { items: inner, .. } = &mut items[i] {
+                            if let Some(moved) = inner.pop() { items.insert(i + 1, moved); }
+                        }
+                    }
+                }
+                7 if !items.is_empty() => {
+                    // the last element swallows nothing / a trailing nested sequence loses its last element to the parent
+                    let last = items.len() - 1;
+                    if let GNode::Seq { items: inner, .. } = &mut items[last] { if let Some(moved) = inner.pop() { items.push(moved); } }
+                }
                 4 if items.len() >= 2 => { items[0] = match &items[0] { GNode::Scalar { text, style, tag, .. } => GNode::Scalar { text: text.clone(), style: *style, anchor: Some("e".into()), tag: tag.clone() }, o => o.clone() }; let last = items.len() - 1; items[last] = GNode::Alias("e".into()); }
                 _ => {}
             }
@@ -403,6 +419,16 @@ fn corpus() -> Vec<(Ty, String)> {
     for t in ["{<<: {a: [1,2,3]}}", "{<<: {a: [1,2]}}", "{a: [1,2,3]}", "{<<: [{a: [1,2,3]}, {b: [1,2]}]}", "m: &m {a: [1,2,3]}\nt: {<<: *m}\n"] {
         v.push((Ty::Map(Box::new(Ty::Str), Box::new(Ty::Any)), t.replace("\\n", "\n")));
         v.push((Ty::Map(Box::new(Ty::Str), Box::new(Ty::Tuple(vec![i32t(), i32t()]))), t.replace("\\n", "\n")));
+    }
+    // surplus of an inner fixed-size position equals the shortage of the outer one: only closing events are left over
+    for t in ["[[1, 2, 3]]", "[[1, 2], 3]", "[[1, 2, 3], 4]", "[[1], 2, 3]", "[[[1, 2, 3]]]", "- - 1\n  - 2\n  - 3\n"] {
+        v.push((Ty::Tuple(vec![Ty::Tuple(vec![i32t(), i32t()]), i32t()]), t.replace("\\n", "\n")));
+        v.push((Ty::Seq(Box::new(Ty::Tuple(vec![i32t(), i32t()]))), t.replace("\\n", "\n")));
+        v.push((Ty::Tuple(vec![Ty::Seq(Box::new(i32t())), Ty::Option(Box::new(i32t()))]), t.replace("\\n", "\n")));
+    }
+    for t in ["{a: [1, 2, 3]}", "{a: [1, 2], b: 3}", "a: [[1, 2, 3]]\n", "a: [1, 2]\n"] {
+        v.push((Ty::Struct(vec![("a", Ty::Tuple(vec![i32t(), i32t()])), ("b", Ty::Option(Box::new(i32t())))], false), t.replace("\\n", "\n")));
+        v.push((Ty::Map(Box::new(Ty::Str), Box::new(Ty::Tuple(vec![Ty::Tuple(vec![i32t(), i32t()]), i32t()]))), t.replace("\\n", "\n")));
     }
     for t in ["!!binary AAEC", "!!binary AAE=", "!!binary AA==", "!!binary \"\"", "!!binary AAECAw==", "[0, 1]", "[0, 1, 2]"] {
         v.push((Ty::Tuple(vec![u8t(), u8t()]), t.to_string()));
